@@ -178,7 +178,7 @@ def gen(rng, ctx):
         "fmt": "nosuchfmt" if hostile and rng.random() < 0.5 else rng.choice(["verilog", "bench"]),
         "types": rng.choice(["and", ["input", "buf"], "nosuchtype" if hostile else "xor"]),
     }
-    return {"fn": fn, "variant": variant, "cls": cls, "c": cd, "c2": c2, "P": P}
+    return {"fn": fn, "variant": variant, "cls": cls, "c": cd, "c2": c2, "P": P, "sparse": rng.random() < 0.3}
 
 
 def circuits_in(obj, depth=0, out=None):
@@ -224,8 +224,11 @@ def scripted_edit(cg, x):
 def check(case, ctx):
     cg = ctx.cg
     fn = case["fn"]
-    c = G.build(cg, case["c"], "graph")
-    c2 = G.build(cg, case["c2"], "graph")
+    via = "sparse" if case.get("sparse") else "graph"
+    c = G.build(cg, case["c"], via)
+    c2 = G.build(cg, case["c2"], via)
+    if case.get("sparse"):
+        ctx.count("sparse_attributes")
     P = dict(case["P"])
     P["path"] = os.path.join(ctx.scratch, f"f{ctx.gen_index if hasattr(ctx, 'gen_index') else 0}.{'bench' if P['fmt'] == 'bench' else 'v'}")
     modname, attr = fn.split(".", 1)
@@ -308,7 +311,7 @@ def gates(counters, table, tier):
             out.append(f"{fn} driven only {n} times")
         if fn not in ext and counters.get(f"outcome:{fn}:ok", 0) < 1:
             out.append(f"{fn} never returned normally")
-    for k in ("raised", "returned", "edit_checks", "identity_checks", "class:escaped"):
+    for k in ("raised", "returned", "edit_checks", "identity_checks", "class:escaped", "sparse_attributes"):
         if counters.get(k, 0) < 20:
             out.append(f"{k} seen {counters.get(k, 0)} times")
     return out
